@@ -80,6 +80,7 @@ struct Ctx {
     std::string level;      // exploration | fault_enumeration | model_checking
     std::string tier = "quick";
     std::string root = "/verif";
+    std::string out = "/verif"; // where evidence/ and replays/ go (VERIF_OUT, default = root)
     std::string replay;     // --replay <file>
     long seed = 0;
     double deadline_s = 0;  // 0 = none
@@ -186,7 +187,7 @@ struct Reporter {
         }
         violations++;
         if (violations > 20) return true; // keep output and replay dir bounded
-        std::string dir = ctx().root + "/replays";
+        std::string dir = ctx().out + "/replays";
         mkdir(dir.c_str(), 0755);
         std::string path = dir + "/" + ctx().id + "_" + ctx().tier + "_" + std::to_string(violations) + ".txt";
         {
@@ -214,6 +215,8 @@ inline void init(int argc, char** argv, const char* id, const char* level, doubl
     c.t0 = std::chrono::steady_clock::now();
     if (const char* e = getenv("VERIF_TIER")) c.tier = e;
     if (const char* e = getenv("VERIF_ROOT")) c.root = e;
+    c.out = c.root;
+    if (const char* e = getenv("VERIF_OUT")) { c.out = e; mkdir(e, 0755); }
     if (const char* e = getenv("VERIF_SEED")) c.seed = atol(e);
     for (int i = 1; i < argc; i++) {
         std::string a = argv[i];
@@ -231,7 +234,7 @@ inline void write_evidence()
 {
     Ctx& c = ctx();
     Evidence& e = ev();
-    std::string dir = c.root + "/evidence";
+    std::string dir = c.out + "/evidence";
     mkdir(dir.c_str(), 0755);
     std::ostringstream o;
     o << "{\n \"property_id\": " << q(c.id) << ",\n \"tier\": " << q(c.tier) << ",\n \"seed\": " << c.seed
